@@ -35,7 +35,7 @@ fn inside(vf: W, exp: W) -> bool {
     vf != W::Future && exp != W::Past
 }
 
-const PATHS: [&str; 11] = [
+const PATHS: [&str; 12] = [
     "interactive_login",
     "posix_password_check",
     "ldap_password_bind",
@@ -47,6 +47,7 @@ const PATHS: [&str; 11] = [
     "api_token_present(service account window)",
     "ldap_api_token_bind_then_identity(service account window)",
     "reauth_existing_session",
+    "ldap_search_on_session_bound_before_the_window_changed",
 ];
 
 struct Tpl {
@@ -105,6 +106,9 @@ fn template() -> Tpl {
 fn run_case(t: &Tpl, vf: W, exp: W, path: usize) -> String {
     let idm = &t.idm;
     let ct = srv::t(NOW);
+    if PATHS[path] == "ldap_search_on_session_bound_before_the_window_changed" {
+        return ldap_stateful(t, vf, exp);
+    }
     // apply the window to the account the path is about
     let target = if PATHS[path].contains("service account window") { S } else { P };
     let mut mods = Vec::new();
@@ -243,6 +247,53 @@ fn run_case(t: &Tpl, vf: W, exp: W, path: usize) -> String {
     }
 }
 
+/// One stateful LDAP connection: bind with the POSIX password while the account is valid, THEN the
+/// window changes, then another operation on the same bound session. The LDAP gateway reads the
+/// wall clock itself, so this path places the window edges one hour from the real time.
+fn ldap_stateful(t: &Tpl, vf: W, exp: W) -> String {
+    use kanidmd_lib::idm::ldap::{LdapResponseState, LdapServer};
+    use ldap3_proto::proto::{LdapFilter, LdapOp, LdapResultCode, LdapSearchScope};
+    use ldap3_proto::simple::{SearchRequest, ServerOps, SimpleBindRequest};
+    let idm = &t.idm;
+    let ls = match idm.rt.block_on(LdapServer::new(&idm.idms)) {
+        Ok(l) => l,
+        Err(e) => return format!("machinery:ldap server {e:?}"),
+    };
+    let ip = std::net::IpAddr::V4(std::net::Ipv4Addr::LOCALHOST);
+    let tok = match idm.rt.block_on(ls.do_op(&idm.idms, ServerOps::SimpleBind(SimpleBindRequest { msgid: 1, dn: "name=p0,dc=example,dc=com".into(), pw: PW_GOOD.into() }), None, ip, Uuid::from_u128(1))) {
+        Ok(LdapResponseState::Bind(tok, _)) => tok,
+        _ => return "machinery:the bind before the window change failed".into(),
+    };
+    let real = std::time::SystemTime::now().duration_since(std::time::UNIX_EPOCH).unwrap_or_default();
+    let hour = Duration::from_secs(3600);
+    let mut mods = Vec::new();
+    match vf {
+        W::None => {}
+        W::Past => mods.push(Modify::Present(Attribute::AccountValidFrom, Value::new_datetime_epoch(real - hour))),
+        W::Future => mods.push(Modify::Present(Attribute::AccountValidFrom, Value::new_datetime_epoch(real + hour))),
+    }
+    match exp {
+        W::None => {}
+        W::Past => mods.push(Modify::Present(Attribute::AccountExpire, Value::new_datetime_epoch(real - hour))),
+        W::Future => mods.push(Modify::Present(Attribute::AccountExpire, Value::new_datetime_epoch(real + hour))),
+    }
+    if !mods.is_empty() {
+        if let Err(e) = idm.write(srv::t(NOW - 50), |w| w.qs_write.internal_modify_uuid(person_uuid(P), &ModifyList::new_list(mods))) {
+            return format!("machinery:window:{e:?}");
+        }
+    }
+    let r = idm.rt.block_on(ls.do_op(&idm.idms, ServerOps::Search(SearchRequest { msgid: 2, base: "dc=example,dc=com".into(), scope: LdapSearchScope::Subtree, filter: LdapFilter::Equality("name".into(), "p0".into()), attrs: vec!["name".into()] }), Some(tok), ip, Uuid::from_u128(2)));
+    match r {
+        Ok(LdapResponseState::MultiPartResponse(m)) => {
+            let done_ok = m.iter().any(|x| matches!(&x.op, LdapOp::SearchResultDone(r) if r.code == LdapResultCode::Success));
+            if done_ok { "granted".into() } else { "refused:search result not success".into() }
+        }
+        Ok(LdapResponseState::Respond(m)) => format!("refused:{:?}", m.op).chars().take(80).collect(),
+        Ok(_) => "refused:other".into(),
+        Err(e) => format!("refused:{e:?}"),
+    }
+}
+
 pub fn run(args: &[String]) -> ! {
     let mut ctx = Ctx::new("C49", Level::Exploration, args);
     let t = template();
@@ -292,7 +343,7 @@ pub fn run(args: &[String]) -> ! {
     }
     ctx.set("evaluations", evals);
     ctx.set("distinct_nontrivial", nontrivial);
-    ctx.set("rule", "product of 9 validity windows (valid-from and expiry each absent, 10 s in the past, 10 s in the future) x 11 paths (interactive login, POSIX password check, LDAP password bind, LDAP token bind + identity, presenting an earlier login token, RADIUS secret asked by the account itself / by a member of the RADIUS servers group through its API token, the POSIX user token's valid flag, API token presentation and LDAP API-token bind with the window on the service account, re-authentication of an existing session). Non-trivial = the window excludes now");
+    ctx.set("rule", "product of 9 validity windows (valid-from and expiry each absent, 10 s in the past, 10 s in the future) x 12 paths (interactive login, POSIX password check, LDAP password bind, LDAP token bind + identity, presenting an earlier login token, RADIUS secret asked by the account itself / by a member of the RADIUS servers group through its API token, the POSIX user token's valid flag, API token presentation and LDAP API-token bind with the window on the service account, re-authentication of an existing session, and a search on an LDAP session that was bound before the window changed). Non-trivial = the window excludes now");
     ctx.set("paths", json!(PATHS));
     ctx.set("mismatches", nbad);
     ctx.set("exhaustive", true);
